@@ -43,6 +43,10 @@ ASSUMPTIONS = [
     "fresh objects must return exactly the same centres and leave the same values; the candidates of the argmin clause "
     "are computed on such rebuilt dies; what callers do between calls (create_squares, Allocation, writing centres) is "
     "not judged, only followed (the model gets the payload values observed after such a step)",
+    "iteration counts: the replayed stream runs at most 33 iterations (the exact Coq replay is quadratic in the iteration count); "
+    "max_iter in {100, 101, 128, 150, 200} (thorough: also 255, 256, 257, 1000) is covered by an ORACLE-ONLY stream on small "
+    "netlists - these cases are not compared with the model (theorems C13_* hold for every max_iter; the correspondence does "
+    "not sample it above 33)",
     "the correspondence carries the MODEL state through the history (Cases/CmpC13.v hist_ok): the trace of every call is "
     "replayed from the values the model has reached, never from the centres read back from the objects",
 ]
@@ -494,8 +498,15 @@ def reloc_step(case, die, st):
     before = state(die)
     pristine = copy.deepcopy(die)           # the values (and the sharing) of this moment
     twins = {"deepcopy": copy.deepcopy(pristine), "rebuilt": rebuild(case, before)}
+    if case.get("oracle_only"):
+        # hundreds of iterations: one twin (the one that shares no object with the die), and for force_algorithm (13
+        # layouts a call) only in the cases marked for it; the argmin clause needs none
+        if twins["rebuilt"] is not None:
+            del twins["deepcopy"]
+        if st["op"] == "algo" and not case.get("twin"):
+            twins = {}
     STATS["calls"] += 1
-    STATS["rebuilt_twin_unavailable"] += twins["rebuilt"] is None
+    STATS["rebuilt_twin_unavailable"] += "rebuilt" in twins and twins["rebuilt"] is None
     d2, trace, nimgs, newfiles = call(st, die)
     after = state(d2)
     o = {"kind": st["op"], "before": before, "after": after, "same_object": d2 is die,
@@ -530,6 +541,9 @@ def reloc_step(case, die, st):
             cs = [[p[0] + W / 2, p[1] + H / 2] for p in r["final"]]
             tc.append(own_cost(areas, names, cs, before["snap"]["nets"]))
         o["trial_costs"] = tc
+    if case.get("oracle_only"):
+        for r in o["runs"]:     # hundreds of iterations: the per-iteration records are not replayed, not kept
+            r["iters"] = []
     return o, d2
 
 
@@ -641,6 +655,8 @@ def greloc(st, o):
 
 
 def to_coq(case, obs):
+    if case.get("oracle_only"):
+        return "true"        # max_iter >= 100: judged by the direct oracle only (no Coq replay of the trace)
     Wf, Hf = float(case["W"]), float(case["H"])
     W, H = gq(Wf), gq(Hf)
     tol = gq(F(1, 10 ** 9) * core.frac(max(Wf, Hf)))
@@ -788,9 +804,13 @@ def dist_key(case):
     sts = steps_of(case)
     if len(sts) == 1:
         s = sts[0]
+        if s["max_iter"] >= 100:
+            return f"{s['op']}/iter100+/oracle-only"
         return f"{s['op']}/iter{min(s['max_iter'], 3)}{'+' if s['max_iter'] > 3 else ''}"
     ops = [s["op"] for s in sts]
     ncalls = sum(1 for o in ops if o in CALLS)
+    if case.get("oracle_only"):
+        return "history/2calls/iter100+/oracle-only"
     return (f"history/{min(ncalls, 3)}call{'s' if ncalls > 1 else ''}/{'algo' if 'algo' in ops else 'layout'}"
             + ("/squares" if "squares" in ops or "alloc" in ops else "") + ("/edit" if "set" in ops else "")
             + ("/copy" if "deepcopy" in ops or "newdie" in ops or "reread" in ops else ""))
@@ -805,15 +825,46 @@ def long_case(rng):
             return c
 
 
+LONG_ITERS = [100, 101, 128, 150, 200]
+
+
+LONG_OPS = ["algo", "algo", "algo", "algo", "algo", "layout"]
+LONG_QUICK = [101, 128, 150, 200, 100, 150, 200, 150, 128, 101, 150, 200]
+
+
+def long_oracle_case(rng, idx, iters=LONG_QUICK, twice=False):
+    """ORACLE-ONLY stream: iteration counts at and above the default of 100 (where the exact Coq replay, quadratic in
+    the iteration count, is out of reach) on small crowded netlists (3-4 modules, two of them soft, a net, a quarter of the die occupied); 3 in 4
+    force_algorithm (1000 iterations: the layout function only); twice: 1 in 5 the same call again on the same die"""
+    it = iters[idx % len(iters)]
+    op = "layout" if it >= 1000 else LONG_OPS[idx % len(LONG_OPS)]
+    while True:
+        c = gen_case(rng, op)
+        # crowded dies (the ranking of the spring constants then depends on how far the layout got)
+        fill = sum(m.get("area", 0) + sum(r[2] * r[3] for r in m.get("rects", [])) for m in c["mods"]) / (c["W"] * c["H"])
+        if 3 <= len(c["mods"]) <= 4 and sum(m["kind"] == "soft" for m in c["mods"]) >= 2 and c["nets"] and fill >= F(1, 4):
+            break
+    c["max_iter"] = it
+    c = normalise(c)
+    if twice and idx % 5 == 4 and it < 1000:
+        c["hist"] = c["hist"] + [dict(c["hist"][0])]
+    c["oracle_only"] = True
+    c["twin"] = idx % 4 == 0
+    return c
+
+
 def run(ctx, out, replay=None):
     quick = ctx.quick()
     n_single, n_tie, n_big, n_long, n_hist = (52, 4, 3, 1, 44) if quick else (700, 40, 24, 4, 500)
+    n_longo = 24 if quick else 120
     out.rule = ("dies k/4 (25% decimal k/10), 1-7 modules mixing soft / hard / fixed (rectangles in separate die cells) / "
                 "terminal with, without and with fixed centre, in any order; centres inside, on the border, in the corners, "
                 "at the die centre, coincident, 12% all on one vertical/horizontal line; 20% equal areas; names M0.. or "
                 "(20%) prefixes/suffixes of each other (H1, H1_0, H1_io, H10, _ ..); 0-4 nets of arity 2-5, weights "
                 "{0.5,1,2,2.5,3,10}, 15% a net listed twice; 30% whole numbers written as YAML integers (die string too); "
-                "kappa in 0.4..1.5, 0.01, 10; max_iter 0..20 incl. 9/10, 15/16/17 (a few 31-33); calls positional or by "
+                "kappa in 0.4..1.5, 0.01, 10; max_iter 0..20 incl. 9/10, 15/16/17 (a few 31-33; ORACLE-ONLY, without Coq replay: "
+                "max_iter 100, 101, 128, 150, 200 on 3-4 modules with two soft ones, a net and a quarter of the die occupied, 5 in 6 force_algorithm, determinism twin "
+                "for 1 in 4 of those); calls positional or by "
                 "keyword (default kappa not passed). ONE-CALL cases on a netlist fresh from YAML (1 in 12 "
                 "force_algorithm), plus TIES (two discs tangent from outside / inside, chord through a centre 3-4-5, "
                 "centre on the other border, concentric; areas pi r^2; 0-2 iterations) and MANY modules (9-11, 15-17, "
@@ -836,6 +887,11 @@ def run(ctx, out, replay=None):
     sizes = [10, 16, 33] if quick else [9, 10, 11, 15, 16, 17, 32, 33]
     light += [normalise(gen_case(rng, "layout", n=sizes[k % len(sizes)])) for k in range(n_big)]
     light += [normalise(long_case(rng)) for _ in range(n_long)]
+    # its own generator: the cases of the replayed stream stay what they were
+    import random
+    rng_o = random.Random(f"C13-long-{ctx.seed}")
+    iters_o = LONG_QUICK if quick else LONG_ITERS + [255, 256, 257, 1000]
+    light += [long_oracle_case(rng_o, k, iters_o, twice=not quick) for k in range(n_longo)]
     heavy = [gen_hist_case(rng, ["prep", "again", "again", "walk"][i % 4]) for i in range(n_hist)]
     # interleaved, so that every Coq shard gets the same mix of cheap and expensive cases
     cases, a, b = list(first), 0, 0
@@ -850,4 +906,11 @@ def run(ctx, out, replay=None):
                  dist_key=dist_key, nontrivial=nontrivial, shard=5, shrink=shrink)
     out.extra["relocation_calls"] = sum(1 for c in cases for s in steps_of(c) if s["op"] in CALLS)
     out.extra["history_cases"] = sum(1 for c in cases if len(steps_of(c)) > 1)
+    lo = [c for c in cases if c.get("oracle_only")]
+    out.extra["oracle_only_long_cases"] = {
+        "cases": len(lo), "max_iter": sorted({s["max_iter"] for c in lo for s in steps_of(c)}),
+        "force_algorithm_calls": sum(1 for c in lo for s in steps_of(c) if s["op"] == "algo"),
+        "note": "no Coq replay for these (the model comparison is the constant true): fixed modules, centres in the die, "
+                "only-centres, determinism (deep copy + rebuilt twin) and the argmin clause are checked by the direct "
+                "oracle, the candidates recomputed with the public layout function at the SAME max_iter on fresh dies"}
     out.extra["implementation_runs"] = dict(STATS)
